@@ -33,6 +33,7 @@ type Profile struct {
 	TrackPay     bool           `json:"trackPayloads"`
 	Generic      bool           `json:"generic"`      // drive the generic API (static component types at ids 0..12)
 	RandListener bool           `json:"randListener"` // random subscription masks / component restrictions
+	NewestPct    int            `json:"newestPct"`    // extra chance to remove / target the entity issued last
 	RetargetPct  int            `json:"retargetPct"`  // chance per step of the "target dies, id recycled, child re-targeted" plan
 	DispatchPct  int            `json:"dispatchPct"`  // share of worlds with a listener.Dispatch
 }
@@ -240,6 +241,9 @@ func (g *generator) targetFor(ref int, faulty bool) (res int) {
 		m := g.maskOf(ref)
 		if rel := g.relOf(m); rel >= 0 {
 			t := g.x.w.Relations().Get(g.x.issued[ref], g.x.idOf(rel))
+			if !t.IsZero() && g.pct(35) {
+				return -1 // the explicit zero target for an entity that has a target: "reset", not "keep"
+			}
 			if !t.IsZero() && !g.x.w.Alive(t) {
 				for _, r := range g.aliveRefs() {
 					if g.x.issued[r].ID() == t.ID() {
@@ -295,6 +299,9 @@ func (g *generator) target(faulty bool) int {
 	}
 	if len(alive) == 0 || g.pct(20) {
 		return -1
+	}
+	if g.pct(12 + g.p.NewestPct/2) {
+		return alive[len(alive)-1] // the entity issued last
 	}
 	// prefer few distinct targets
 	if len(alive) > 3 && g.pct(70) {
@@ -637,6 +644,10 @@ func (g *generator) nextInner() Op {
 			}
 			if len(alive) == 0 {
 				continue
+			}
+			if g.pct(25 + g.p.NewestPct) {
+				// the entity issued last (often the highest id so far: the edge of every per-id structure)
+				return Op{Op: "RemoveEntity", E: alive[len(alive)-1]}
 			}
 			return Op{Op: "RemoveEntity", E: g.pick(alive)}
 		case "exchange", "assign":
@@ -1114,7 +1125,7 @@ func (g *generator) nextInner() Op {
 				op := Op{Op: "Exchange", Api: "generic.Map.Add", E: ref, Ar: ar, Tgt: -1}
 				if ar >= 3 && g.pct(70) {
 					op.HasRel, op.Rel, op.HasTgt = true, 2, true
-					op.Tgt = g.target(faulty)
+					op.Tgt = g.targetFor(ref, faulty)
 				}
 				if g.pct(30) {
 					op.Op, op.Api, op.Vals = "Assign", "generic.Map.Assign", g.vals(seqIDs(ar))
@@ -1127,7 +1138,7 @@ func (g *generator) nextInner() Op {
 				if contains(mask, 12) && g.pct(50) {
 					// keep relation 12 and retarget it while removing
 					op.HasRel, op.Rel, op.HasTgt = true, 12, true
-					op.Tgt = g.target(faulty)
+					op.Tgt = g.targetFor(ref, faulty)
 				}
 				return op
 			default:
@@ -1172,7 +1183,7 @@ func (g *generator) nextInner() Op {
 				op := Op{Op: "Exchange", Api: api, E: ref, Add: add, Rem: rem, Tgt: -1}
 				if relLeft >= 0 && g.pct(50) {
 					op.HasRel, op.Rel, op.HasTgt = true, relLeft, true
-					op.Tgt = g.target(faulty)
+					op.Tgt = g.targetFor(ref, faulty)
 				}
 				return op
 			}
